@@ -422,6 +422,10 @@ def runFrom (c : Ctx) : Nat → Lx → St → LexOut
     | .cont l' s' => if l'.trapped then .trap l'.toks.reverse else runFrom c k l' s'
     | .done l' => if l'.trapped then .trap l'.toks.reverse else .done l'.toks.reverse
 
+def LexOut.isTrap : LexOut → Bool
+  | .trap _ => true
+  | _ => false
+
 /-- Enough fuel for every input (theorem `lexer_total`). -/
 def lexFuel (c : Ctx) : Nat := 10 * c.inp.length + 10
 
